@@ -13,8 +13,12 @@ func funcKeyOf(fn *types.Func) string {
 	sig := fn.Type().(*types.Signature)
 	name := fn.Name()
 	pk := ""
-	if fn.Pkg() != nil && !isMainLike(fn.Pkg()) {
-		pk = fn.Pkg().Name() + "."
+	if fn.Pkg() != nil {
+		if pre, ok := mainPkgPaths.Load(fn.Pkg().Path()); ok {
+			pk = pre.(string)
+		} else {
+			pk = fn.Pkg().Name() + "."
+		}
 	}
 	if sig.Recv() != nil {
 		t := sig.Recv().Type()
@@ -317,9 +321,21 @@ func (x *Exec) freshTyped(t types.Type, hint string, st *State) Value {
 
 // assumeTypeInv: representation invariants of values coming from outside (lengths are non-negative).
 func (x *Exec) assumeTypeInv(v Value, t types.Type, st *State) {
+	if tm, ok := v.(Term); ok && tm.T.K == SInt && t != nil && isInteger(t) {
+		// mathematical-integer mode: a Go int is a 64-bit value
+		x.assume(st, tAnd(mk(sortBool, "<=", Term{minInt64S, sortInt}, tm), mk(sortBool, "<=", tm, Term{maxInt64S, sortInt})))
+		return
+	}
 	if isSlice(v) {
 		sv := v.(*StructV)
-		x.assume(st, tAnd(x.geZero(sv.get("$len").(Term)), x.geZero(sv.get("$off").(Term))))
+		ln, ok := sv.get("$len").(Term)
+		if !ok || ln.T.K == SArr {
+			return
+		}
+		x.assume(st, tAnd(x.geZero(ln), x.geZero(sv.get("$off").(Term))))
+		if ln.T.K == SInt {
+			x.assume(st, mk(sortBool, "<=", ln, Term{maxInt64S, sortInt}))
+		}
 	}
 }
 
